@@ -4,6 +4,7 @@ import (
 	"bytes"
 	"fmt"
 	"math/rand"
+	"os"
 	"sort"
 	"strings"
 
@@ -391,6 +392,11 @@ func measure(r *Result, sc *scenario) (nontrivial map[string]bool) {
 	}
 	r.Inc("rounds_decided", decided)
 	r.Inc("late_witnesses", late)
+	r.Inc("events_into_processed_rounds", sc.d.oldRoundEvents)
+	r.Inc("witnesses_into_processed_rounds", sc.d.lateWitnesses)
+	r.Inc("steps_with_a_round_decided_before_an_earlier_one", sc.d.outOfOrderSteps)
+	r.Inc("witnesses_into_decided_unprocessed_rounds", sc.d.witnessIntoWaitingDecided)
+	r.Inc("guided_late_witness_attempts", sc.d.guidedLateWitnesses)
 	r.Inc("empty_frames", empty)
 	r.Inc("events", len(sc.d.events))
 	r.Inc("blocks_ref", len(ref.blocks))
@@ -473,6 +479,9 @@ func runHGWith(r *Result, thorough bool, prop string, rng *rand.Rand) {
 			resetUsedNodes(r, sc, rng)
 		}
 		checkOracles(r, sc)
+		if os.Getenv("DBGLATE") != "" {
+			fmt.Fprintf(os.Stderr, "DBG scenario %s events=%d lastRound=%d blocks=%d lateW=%d\n", o.String(), len(sc.d.events), sc.nodes[0].store.LastRound(), len(sc.nodes[0].blocks), sc.d.lateWitnesses)
+		}
 		nt := measure(r, sc)
 		r.Count(sc.canon, nt[prop])
 		r.Inc("scenarios", 1)
